@@ -848,7 +848,7 @@ func (e *env) fifoPass() {
 			stuck := false
 			select {
 			case <-done:
-			case <-time.After(5 * time.Second):
+			case <-time.After(2 * time.Minute):
 				stuck = true
 			}
 			switch {
